@@ -194,6 +194,54 @@ func oracleFor(op *Sexp, res string) []string {
 		if res != want {
 			bad("Marshal output differs from the documented format: got %s want %s", res, want)
 		}
+	case "app":
+		// (app cfg T tag V xPREFIX cap mode): the result is the caller's prefix followed by exactly the encoding
+		c, err := parseCtx(op)
+		if err != nil || res == "err" {
+			return nil
+		}
+		v, err := parseVal(op.List[4])
+		pre, err2 := unhx(arg(5))
+		if err != nil || err2 != nil || !strings.HasPrefix(res, "ok x") {
+			return nil
+		}
+		out, _ := unhx(res[3:])
+		if len(out) < len(pre) || hx(out[:len(pre)]) != hx(pre) {
+			bad("Marshal changed the %d bytes already in the buffer: got %s", len(pre), res)
+		} else if !multiEntryMaps(v) {
+			if want := hx(append(append([]byte(nil), pre...), cfgRef(c.cfg).top(c.td, v, c.tag)...)); hx(out) != want {
+				bad("Marshal into a buffer holding %d bytes: got %s want %s", len(pre), hx(out), want)
+			}
+		}
+	case "xdec":
+		// (xdec cfgE cfgD T V): what one configuration writes the other reads back
+		td, e1 := parseTyDef(op.List[3])
+		v, e2 := parseVal(op.List[4])
+		if e1 != nil || e2 != nil || res == "builderr" {
+			return nil
+		}
+		if want := "ok " + normPos(td, v, false).String(); res != want {
+			bad("value written under options %s read under options %s: got %s want %s", arg(1), arg(2), res, want)
+		}
+	case "evolve":
+		// (evolve cfg S S' V PRIOR): fields matched by index, unknown skipped, missing left alone
+		td, e1 := parseTyDef(op.List[2])
+		td2, e2 := parseTyDef(op.List[3])
+		v, e3 := parseVal(op.List[4])
+		if e1 != nil || e2 != nil || e3 != nil || res == "builderr" || len(arg(1)) != 2 {
+			return nil
+		}
+		prior := zeroVal(td2)
+		if op.List[5].IsL {
+			p, err := parseVal(op.List[5])
+			if err != nil {
+				return nil
+			}
+			prior = p
+		}
+		if want := "ok " + mergeTop(td2, prior, project(td, td2, v), arg(1)[1] == '1').String(); res != want {
+			bad("data written as S and read as the evolved S': got %s want %s", res, want)
+		}
 	case "decm":
 		c, err := parseCtx(op)
 		if err != nil {
